@@ -43,5 +43,12 @@ func init() {
 
 func init() {
 	props["C08"] = PropSpec{Title: "body", Explanation: "tmp", Rules: []Rule{{"body-write", "f", ruleBodyWrite}, {"err-atomic", "p", ruleErrAtomicRemove}, {"sectpr-last", "p", ruleSectPrLast}}}
-	props["C12"] = PropSpec{Title: "page", Explanation: "tmp", Rules: []Rule{{"err-atomic", "p", ruleErrAtomicPage}}}
+	props["C12"] = PropSpec{Title: "page", Explanation: "tmp", Rules: []Rule{{"err-atomic", "p", ruleErrAtomicPage}, {"field-bij", "b", ruleFieldBij}, {"setter-scope", "s", ruleSetterScope}}}
+}
+
+func init() {
+	props["C13"] = PropSpec{Title: "ids", Explanation: "tmp", Rules: []Rule{{"style-id", "f", func(r *Run) { ruleStyleID(r, "") }}, {"part-dep", "p", rulePartDep}, {"must-update", "p", ruleMustUpdate}}}
+	props["C15"] = PropSpec{Title: "lists", Explanation: "tmp", Rules: []Rule{{"memo-key", "f", ruleMemoKey}, {"global-state", "g", func(r *Run) {
+		ruleGlobalState(r, map[string]bool{"globalFootnoteManager": true, "globalNumberingManager": true})
+	}}}}
 }
